@@ -7,6 +7,7 @@ def register(reg):
     register_hashchecker(reg)
     register_hashchecker_next(reg)
     register_hashchecker_iter(reg)
+    register_find_root(reg)
     C = reg.contract
 
     # ------------------------------------------------------------------ Padder.__next__  (C04 / C16: absent data = zeros)
@@ -171,7 +172,7 @@ def register_hashchecker_iter(reg):
       params={"self": hc_fresh},
       variants=[{"self": hc_fresh, "_v": "const:'first call'"}, {"self": hc_file, "_v": "const:'file on disk'"},
                 {"self": hc_pad, "_v": "const:'file absent'"}],
-      shards=3, shard_by="variant",
+      shards=3, shard_by="variant", fork_checks=True,
       ghost={"i": "int"},
       requires=["self.piece_length >= 16384 and is_pow2(self.piece_length)"],
       variant_requires=[["is_none(self.current)", "self.index == -1"], MID + FH_WF, MID + PAD_WF],
@@ -215,3 +216,31 @@ def register_hashchecker_iter(reg):
             "nothing to report, and iteration stops only after the last listed file; coverage of the whole payload follows by "
             "induction over the calls (hand argument).  Composition of the next_file / process_current contracts; the hasher object "
             "is FileHasher or Padder (shape clauses)")
+
+
+def register_find_root(reg):
+    C = reg.contract
+    CK = {"cls": "torrentfile.recheck.Checker", "fields": {"info": "dict", "name": "str"}}
+    SINGLE = "('length' in self.info)"
+    ROOT = f"(basename(path) == self.name and ((not {SINGLE} and fs_isdir(path)) or fs_isfile(path)))"
+    C("torrentfile.recheck.Checker.find_root",
+      props=["C05", "C16", "C04"],
+      params={"self": CK, "path": "str"},
+      returns="any",
+      fs_modifies=[],
+      ensures=[
+          (["C05", "C16"], "the_payload_root_itself_is_taken_as_it_is",
+           f"implies({ROOT}, path_str(result) == path)"),
+          (["C05", "C16"], "a_parent_directory_resolves_to_the_entry_named_like_the_torrent",
+           f"implies(fs_isdir(path) and not {ROOT}, path_str(result) == pathjoin(path, self.name) and fs_exists(pathjoin(path, self.name)))"),
+          (["C05", "C16"], "what_is_returned_exists", "fs_exists(path_str(result))"),
+      ],
+      raises={"FileNotFoundError": {"ensures": [
+          (["C05"], "only_when_the_content_is_in_neither_place",
+           f"not fs_exists(path) or (not {ROOT} and not (fs_isdir(path) and fs_exists(pathjoin(path, self.name))))")]},
+          "NotADirectoryError": {"ensures": [(["C05"], "only_for_a_file_that_is_not_the_payload", f"fs_isfile(path) and not {ROOT}")]}},
+      raises_props=["C05"],
+      notes="content path = payload root or its parent: the root is recognised by its name (a directory for multi-file torrents, a file "
+            "for single-file ones, incl. BEP 52 single files without info.length); otherwise the entry named like the torrent inside the "
+            "given directory is taken.  A multi-file payload inside a parent that carries the payload's own name is indistinguishable from "
+            "the root by name (known finding C05:content-path:parent-named-like-payload:dir)")
